@@ -53,7 +53,7 @@ MANIFEST = dict(
               "must-precede on the event log",
 )
 FLOORS = {"C02.1": 1, "C02.2": 8, "C02.3": 5, "C02.4": 3, "C02.5": 5,
-          "C02.6": 14, "C02.7": 30}
+          "C02.6": 14, "C02.7": 30, "C02.8": 20}
 
 RPE = "evo.core.metrics.RPE"
 IDP = "evo.core.metrics.id_pairs_from_delta"
@@ -102,6 +102,16 @@ def check(ctx):
             _point_distance(ctx, res, member, err, IDPAIRS, family)
         else:
             pe = per_element(err)
+            iv = mm.interval(err) if pe is None and family == "angle" \
+                else None
+            top = 180.0 if degrees else 3.141592653589793
+            if iv is not None and iv[1] > top * (1 + 1e-9):
+                ctx.ob("C02.6", res.func, False,
+                       f"RPE[{member}]: the value expression has range "
+                       f"[{iv[0]:.6g}, {iv[1]:.6g}] — a geodesic angle lies "
+                       f"in [0, {top:.6g}]", key=f"C02.6:{member}:range",
+                       value=fmt(err))
+                continue
             if pe is None:
                 ctx.undecidable("C02.6", res.func, f"RPE[{member}]: error array is not "
                                     f"built element-wise (unknown idiom): "
@@ -179,6 +189,8 @@ def check(ctx):
     _rpe_core(ctx, r)
     _run_wiring(ctx, "evo.main_rpe", "rpe", "C02")
     _delta_unit(ctx)
+    from .c01 import _pipeline_views
+    _pipeline_views(ctx, "C02.8")
 
 
 def coindexing(ctx, res, member, err, dids, IDPAIRS, rule):
